@@ -237,6 +237,260 @@ fn gen_f32(rng: &mut Rng, fb: u32) -> (f32, &'static str) {
     }
 }
 
+/// every check of one 16-bit pattern (all 16-bit types)
+fn pattern16(ctx: &mut Ctx, acc: &mut Acc, rng: &mut Rng, p: u16) {
+    let b = be16(p);
+    let s = p as i16;
+    scalar_rt::<u16>(ctx, acc, "u16", p, &b);
+    scalar_rt::<i16>(ctx, acc, "i16", s, &b);
+    scalar_rt::<FWord>(ctx, acc, "FWord", FWord::new(s), &b);
+    scalar_rt::<UfWord>(ctx, acc, "UfWord", UfWord::new(p), &b);
+    scalar_rt::<F2Dot14>(ctx, acc, "F2Dot14", F2Dot14::from_bits(s), &b);
+    scalar_rt::<F4Dot12>(ctx, acc, "F4Dot12", F4Dot12::from_bits(s), &b);
+    scalar_rt::<F6Dot10>(ctx, acc, "F6Dot10", F6Dot10::from_bits(s), &b);
+    scalar_rt::<Offset16>(ctx, acc, "Offset16", Offset16::new(p), &b);
+    scalar_rt::<GlyphId16>(ctx, acc, "GlyphId16", GlyphId16::new(p), &b);
+    scalar_rt::<NameId>(ctx, acc, "NameId", NameId::new(p), &b);
+    if let Some(n) = <Nullable<Offset16> as Scalar>::read(&b) {
+        scalar_rt::<Nullable<Offset16>>(ctx, acc, "Nullable<Offset16>", n, &b);
+        if n.is_null() != (p == 0) || n.offset().to_u32() != p as u32 || Offset16::new(p).is_null() != (p == 0) {
+            acc.mismatch(ctx, "Offset16", "is_null/to_u32", None, format!("bits={:#06x}", p), json!(null));
+        }
+    }
+    // accessors
+    if FWord::new(s).to_i16() != s || UfWord::new(p).to_u16() != p || GlyphId16::new(p).to_u16() != p || NameId::new(p).to_u16() != p
+        || FWord::new(s).to_be_bytes() != b || UfWord::new(p).to_be_bytes() != b || F2Dot14::from_bits(s).to_be_bytes() != b
+        || GlyphId16::new(p).to_be_bytes() != b || NameId::new(p).to_be_bytes() != b || GlyphId16::new(p).to_u32() != p as u32
+    {
+        acc.mismatch(ctx, "16-bit newtypes", "accessors", None, format!("bits={:#06x}", p), json!(null));
+    }
+    // ordering of the integer newtypes == ordering of raw
+    let o = match p % 3 {
+        0 => p.wrapping_add(1),
+        1 => p ^ 0x8000,
+        _ => rng.u32() as u16,
+    };
+    if FWord::new(s).cmp(&FWord::new(o as i16)) != s.cmp(&(o as i16))
+        || UfWord::new(p).cmp(&UfWord::new(o)) != p.cmp(&o)
+        || GlyphId16::new(p).cmp(&GlyphId16::new(o)) != p.cmp(&o)
+        || NameId::new(p).cmp(&NameId::new(o)) != p.cmp(&o)
+        || Offset16::new(p).cmp(&Offset16::new(o)) != p.cmp(&o)
+    {
+        acc.mismatch(ctx, "16-bit newtypes", "ordering", None, format!("bits={:#06x},{:#06x}", p, o), json!(null));
+    }
+    acc.evals += 2;
+    f2dot14_at(ctx, acc, s, o as i16);
+    f4dot12_at(ctx, acc, s, o as i16);
+    f6dot10_at(ctx, acc, s, o as i16);
+    // conversions to 16.16
+    let fx = F2Dot14::from_bits(s).to_fixed().to_bits();
+    if fx != s as i32 * 4 {
+        acc.mismatch(ctx, "F2Dot14", "to_fixed", None, format!("bits={:#06x}", p), json!({"got": fx}));
+    }
+    if FWord::new(s).to_fixed().to_bits() as i64 != (s as i64) << 16 {
+        acc.mismatch(ctx, "FWord", "to_fixed", None, format!("bits={:#06x}", p), json!(null));
+    }
+    if p < 0x8000 && UfWord::new(p).to_fixed().to_bits() as i64 != (p as i64) << 16 {
+        acc.mismatch(ctx, "UfWord", "to_fixed", None, format!("bits={:#06x}", p), json!(null));
+    }
+    if Fixed::from_i32(s as i32).to_bits() as i64 != (s as i64) << 16 || Fixed::from(s as i32).to_bits() as i64 != (s as i64) << 16 {
+        acc.mismatch(ctx, "Fixed", "from_i32", None, format!("i={}", s), json!(null));
+    }
+    // 16.16 -> 2.14 on every value that is representable in 2.14 (+- the two low bits)
+    for low in 0..4i32 {
+        let x = (s as i32) * 4 + low;
+        let e = (x as i64 + 2).div_euclid(4);
+        if e >= i16::MIN as i64 && e <= i16::MAX as i64 {
+            let got = Fixed::from_bits(x).to_f2dot14().to_bits();
+            if got as i64 != e {
+                acc.mismatch(ctx, "Fixed", "to_f2dot14", None, format!("bits={:#010x}", x as u32), json!({"got": got, "expected": e}));
+            }
+            acc.evals += 1;
+        }
+    }
+    // MajorMinor / Version16Dot16 with this pattern as major and a derived minor
+    let minor = (p as u32 * 7 % 10) as u16;
+    let v = Version16Dot16::new(p, minor);
+    let vb = [b[0], b[1], (minor << 4) as u8, 0];
+    scalar_rt::<Version16Dot16>(ctx, acc, "Version16Dot16", v, &vb);
+    if v.to_major_minor() != (p, minor) || v.to_be_bytes() != vb {
+        acc.mismatch(ctx, "Version16Dot16", "to_major_minor", None, format!("major={},minor={}", p, minor), json!(null));
+    }
+    let mm = MajorMinor::new(p, o);
+    let mb = [b[0], b[1], (o >> 8) as u8, o as u8];
+    scalar_rt::<MajorMinor>(ctx, acc, "MajorMinor", mm, &mb);
+    if MajorMinor::new(p, o).cmp(&MajorMinor::new(o, p)) != (p, o).cmp(&(o, p)) {
+        acc.mismatch(ctx, "MajorMinor", "ordering", None, format!("{},{}", p, o), json!(null));
+    }
+}
+
+/// every check of one 24-bit pattern; the complete battery when `full`
+fn pattern24(ctx: &mut Ctx, acc: &mut Acc, rng: &mut Rng, p: u32, full: bool) {
+    let b = be24(p);
+    let sv = ((p << 8) as i32) >> 8; // sign-extended
+    acc.evals += 3;
+    let ok = guard(|| {
+        let u = Uint24::from_be_bytes(b);
+        let i = Int24::from_be_bytes(b);
+        u.to_u32() == p
+            && u.to_be_bytes() == b
+            && Uint24::new(p) == u
+            && Uint24::checked_new(p) == Some(u)
+            && u32::from(u) == p
+            && usize::from(u) == p as usize
+            && Uint24::try_from(p as usize).ok() == Some(u)
+            && i.to_i32() == sv
+            && i.to_be_bytes() == b
+            && Int24::new(sv) == i
+            && Int24::checked_new(sv) == Some(i)
+            && i32::from(i) == sv
+            && <Uint24 as Scalar>::read(&b) == Some(u)
+            && <Int24 as Scalar>::read(&b) == Some(i)
+            && u.to_raw() == b
+            && i.to_raw() == b
+            && <Offset24 as Scalar>::read(&b).map(|o| o.to_u32()) == Some(p)
+            && Offset24::new(u).to_raw() == b
+            && Offset24::new(u).is_null() == (p == 0)
+            && BigEndian::<Int24>::from(i).get() == i
+            && BigEndian::<Uint24>::from(u).be_bytes() == b
+    });
+    match ok {
+        Ok(true) => {}
+        Ok(false) => acc.mismatch(ctx, "Uint24/Int24/Offset24", "be_roundtrip", None, format!("bytes={}", hex(&b)), json!(null)),
+        Err(pi) => acc.panic(ctx, &pi, "Uint24/Int24/Offset24", "be_roundtrip", None, format!("bytes={}", hex(&b)), json!(null)),
+    }
+    if full {
+        // the complete battery (incl. wrong lengths, BigEndian::set) on a subset; ordering
+        scalar_rt::<Uint24>(ctx, acc, "Uint24", Uint24::new(p), &b);
+        scalar_rt::<Int24>(ctx, acc, "Int24", Int24::new(sv), &b);
+        scalar_rt::<Offset24>(ctx, acc, "Offset24", Offset24::new(Uint24::new(p)), &b);
+        if let Some(nl) = <Nullable<Offset24> as Scalar>::read(&b) {
+            scalar_rt::<Nullable<Offset24>>(ctx, acc, "Nullable<Offset24>", nl, &b);
+        }
+        let o = rng.u32() & 0xFF_FFFF;
+        let so = ((o << 8) as i32) >> 8;
+        if Uint24::new(p).cmp(&Uint24::new(o)) != p.cmp(&o) || Int24::new(sv).cmp(&Int24::new(so)) != sv.cmp(&so) {
+            acc.mismatch(ctx, "Uint24/Int24", "ordering", None, format!("{:#x},{:#x}", p, o), json!(null));
+        }
+    }
+}
+
+/// every check of the 32- and 64-bit scalars at `vals[i]`
+fn pattern32_64(ctx: &mut Ctx, acc: &mut Acc, vals: &[u64], i: usize) {
+    let v = &vals[i];
+    let w = *v as u32;
+    let b = be32(w);
+    scalar_rt::<u32>(ctx, acc, "u32", w, &b);
+    scalar_rt::<i32>(ctx, acc, "i32", w as i32, &b);
+    scalar_rt::<Fixed>(ctx, acc, "Fixed", Fixed::from_bits(w as i32), &b);
+    scalar_rt::<Offset32>(ctx, acc, "Offset32", Offset32::new(w), &b);
+    scalar_rt::<Tag>(ctx, acc, "Tag", Tag::from_be_bytes(b), &b);
+    if let Some(x) = <Version16Dot16 as Scalar>::read(&b) {
+        scalar_rt::<Version16Dot16>(ctx, acc, "Version16Dot16", x, &b);
+    }
+    if let Some(x) = <Nullable<Offset32> as Scalar>::read(&b) {
+        scalar_rt::<Nullable<Offset32>>(ctx, acc, "Nullable<Offset32>", x, &b);
+    }
+    scalar_rt::<MajorMinor>(ctx, acc, "MajorMinor", MajorMinor::new((w >> 16) as u16, w as u16), &b);
+    let tg = Tag::from_u32(w);
+    let o = (vals[(i * 31 + 7) % vals.len()]) as u32;
+    if tg.to_be_bytes() != b || tg.into_bytes() != b || tg != Tag::from_be_bytes(b) || Fixed::from_bits(w as i32).to_be_bytes() != b
+        || tg.cmp(&Tag::from_u32(o)) != w.cmp(&o)
+        || Fixed::from_bits(w as i32).cmp(&Fixed::from_bits(o as i32)) != (w as i32).cmp(&(o as i32))
+        || Offset32::new(w).cmp(&Offset32::new(o)) != w.cmp(&o)
+        || Offset32::new(w).to_u32() != w
+    {
+        acc.mismatch(ctx, "Tag/Fixed/Offset32", "bytes/ordering", None, format!("{:#010x},{:#010x}", w, o), json!(null));
+    }
+    let b8 = be64(*v);
+    scalar_rt::<i64>(ctx, acc, "i64", *v as i64, &b8);
+    scalar_rt::<LongDateTime>(ctx, acc, "LongDateTime", LongDateTime::new(*v as i64), &b8);
+    let o64 = vals[(i * 17 + 3) % vals.len()] as i64;
+    if LongDateTime::new(*v as i64).as_secs() != *v as i64
+        || LongDateTime::new(*v as i64).to_be_bytes() != b8
+        || LongDateTime::new(*v as i64).cmp(&LongDateTime::new(o64)) != (*v as i64).cmp(&o64)
+    {
+        acc.mismatch(ctx, "LongDateTime", "as_secs/bytes/ordering", None, format!("{:#x}", v), json!(null));
+    }
+    acc.class(3, 0, (crate::common::bitlen(*v as i64) as u64) << 1 | ((*v as i64) < 0) as u64);
+}
+
+/// Int24 / Uint24 construction from an out-of-range (or in-range) integer
+fn saturate_at(ctx: &mut Ctx, acc: &mut Acc, x: i64) {
+    acc.evals += 1;
+    if x >= i32::MIN as i64 && x <= i32::MAX as i64 {
+        let xi = x as i32;
+        let exp = xi.clamp(-0x80_0000, 0x7F_FFFF);
+        let (g, c) = (Int24::new(xi).to_i32(), Int24::checked_new(xi).map(|v| v.to_i32()));
+        let in_range = exp == xi;
+        if g != exp || c != in_range.then_some(xi) {
+            acc.mismatch(ctx, "Int24", "new/checked_new", None, format!("x={}", xi), json!({"new": g, "checked_new": c, "expected_saturated": exp}));
+        }
+        acc.count(if in_range { "int24:new_in_range" } else { "int24:new_saturating" }, 1);
+        if !in_range {
+            acc.sample(ctx, "int24_saturation", || json!({"Int24::new": xi, "to_i32": g, "checked_new": c}));
+        }
+        acc.class(2, 0, (in_range as u64) << 1 | (xi < 0) as u64);
+    }
+    if x >= 0 {
+        let xu = x as u32;
+        let exp = xu.min(0xFF_FFFF);
+        let in_range = exp == xu;
+        let (g, c) = (Uint24::new(xu).to_u32(), Uint24::checked_new(xu).map(|v| v.to_u32()));
+        let t = Uint24::try_from(xu as usize).ok().map(|v| v.to_u32());
+        if g != exp || c != in_range.then_some(xu) || t != c {
+            acc.mismatch(ctx, "Uint24", "new/checked_new/try_from", None, format!("x={}", xu), json!({"new": g, "checked_new": c, "try_from": t, "expected_saturated": exp}));
+        }
+        acc.count(if in_range { "uint24:new_in_range" } else { "uint24:new_saturating" }, 1);
+        acc.class(2, 1, in_range as u64);
+    }
+}
+
+/// Miri slice: boundary patterns plus `n` random ones per width through the same per-pattern batteries.
+pub fn miri(ctx: &mut Ctx, acc: &mut Acc, n: usize) {
+    let mut rng = Rng::derive(ctx.seed, "c15-small-miri", 0);
+    for v in [0u8, 1, 0x7F, 0x80, 0xFF, rng.u32() as u8] {
+        scalar_rt::<u8>(ctx, acc, "u8", v, &[v]);
+        scalar_rt::<i8>(ctx, acc, "i8", v as i8, &[v]);
+    }
+    let mut p16: Vec<u16> = vec![0, 1, 0x3FFF, 0x4000, 0x7FFF, 0x8000, 0x8001, 0xC000, 0xFFFE, 0xFFFF];
+    while p16.len() < 10 + n {
+        p16.push(rng.u32() as u16);
+    }
+    for p in p16 {
+        pattern16(ctx, acc, &mut rng, p);
+    }
+    for _ in 0..n {
+        let (x, c) = gen_f32(&mut rng, 14);
+        f2dot14_from(ctx, acc, x, c);
+        let (x, c) = gen_f32(&mut rng, 12);
+        f4dot12_from(ctx, acc, x, c);
+        let (x, c) = gen_f32(&mut rng, 10);
+        f6dot10_from(ctx, acc, x, c);
+    }
+    let mut p24: Vec<u32> = vec![0, 1, 0x7F_FFFF, 0x80_0000, 0x80_0001, 0xFF_FFFF, 0x00_FF00, 0x01_0000];
+    while p24.len() < 8 + n {
+        p24.push(rng.u32() & 0xFF_FFFF);
+    }
+    for (i, p) in p24.into_iter().enumerate() {
+        pattern24(ctx, acc, &mut rng, p, i % 2 == 0);
+    }
+    let mut outs: Vec<i64> = vec![0x7F_FFFF, 0x80_0000, -0x80_0000, -0x80_0001, 0xFF_FFFF, 0x100_0000, i32::MAX as i64, i32::MIN as i64, u32::MAX as i64];
+    while outs.len() < 9 + n {
+        outs.push(rng.range(i32::MIN as i64, u32::MAX as i64));
+    }
+    for x in outs {
+        saturate_at(ctx, acc, x);
+    }
+    let mut vals: Vec<u64> = vec![0, 1, 0x7FFF_FFFF, 0x8000_0000, 0xFFFF_FFFF, 0x1_0000_0000, u64::MAX, 1 << 63, 0x0001_0000, 0x0000_5000];
+    while vals.len() < 10 + n {
+        vals.push(rng.u64() >> rng.below(64));
+    }
+    for i in 0..vals.len() {
+        pattern32_64(ctx, acc, &vals, i);
+    }
+}
+
 pub fn run(ctx: &mut Ctx, acc: &mut Acc) {
     let mut rng = Rng::derive(ctx.seed, "c15-small", ctx.shard.0 as u64);
 
@@ -254,89 +508,7 @@ pub fn run(ctx: &mut Ctx, acc: &mut Acc) {
         if !ctx.mine(p as usize) {
             continue;
         }
-        let b = be16(p);
-        let s = p as i16;
-        scalar_rt::<u16>(ctx, acc, "u16", p, &b);
-        scalar_rt::<i16>(ctx, acc, "i16", s, &b);
-        scalar_rt::<FWord>(ctx, acc, "FWord", FWord::new(s), &b);
-        scalar_rt::<UfWord>(ctx, acc, "UfWord", UfWord::new(p), &b);
-        scalar_rt::<F2Dot14>(ctx, acc, "F2Dot14", F2Dot14::from_bits(s), &b);
-        scalar_rt::<F4Dot12>(ctx, acc, "F4Dot12", F4Dot12::from_bits(s), &b);
-        scalar_rt::<F6Dot10>(ctx, acc, "F6Dot10", F6Dot10::from_bits(s), &b);
-        scalar_rt::<Offset16>(ctx, acc, "Offset16", Offset16::new(p), &b);
-        scalar_rt::<GlyphId16>(ctx, acc, "GlyphId16", GlyphId16::new(p), &b);
-        scalar_rt::<NameId>(ctx, acc, "NameId", NameId::new(p), &b);
-        if let Some(n) = <Nullable<Offset16> as Scalar>::read(&b) {
-            scalar_rt::<Nullable<Offset16>>(ctx, acc, "Nullable<Offset16>", n, &b);
-            if n.is_null() != (p == 0) || n.offset().to_u32() != p as u32 || Offset16::new(p).is_null() != (p == 0) {
-                acc.mismatch(ctx, "Offset16", "is_null/to_u32", None, format!("bits={:#06x}", p), json!(null));
-            }
-        }
-        // accessors
-        if FWord::new(s).to_i16() != s || UfWord::new(p).to_u16() != p || GlyphId16::new(p).to_u16() != p || NameId::new(p).to_u16() != p
-            || FWord::new(s).to_be_bytes() != b || UfWord::new(p).to_be_bytes() != b || F2Dot14::from_bits(s).to_be_bytes() != b
-            || GlyphId16::new(p).to_be_bytes() != b || NameId::new(p).to_be_bytes() != b || GlyphId16::new(p).to_u32() != p as u32
-        {
-            acc.mismatch(ctx, "16-bit newtypes", "accessors", None, format!("bits={:#06x}", p), json!(null));
-        }
-        // ordering of the integer newtypes == ordering of raw
-        let o = match p % 3 {
-            0 => p.wrapping_add(1),
-            1 => p ^ 0x8000,
-            _ => rng.u32() as u16,
-        };
-        if FWord::new(s).cmp(&FWord::new(o as i16)) != s.cmp(&(o as i16))
-            || UfWord::new(p).cmp(&UfWord::new(o)) != p.cmp(&o)
-            || GlyphId16::new(p).cmp(&GlyphId16::new(o)) != p.cmp(&o)
-            || NameId::new(p).cmp(&NameId::new(o)) != p.cmp(&o)
-            || Offset16::new(p).cmp(&Offset16::new(o)) != p.cmp(&o)
-        {
-            acc.mismatch(ctx, "16-bit newtypes", "ordering", None, format!("bits={:#06x},{:#06x}", p, o), json!(null));
-        }
-        acc.evals += 2;
-        f2dot14_at(ctx, acc, s, o as i16);
-        f4dot12_at(ctx, acc, s, o as i16);
-        f6dot10_at(ctx, acc, s, o as i16);
-        // conversions to 16.16
-        let fx = F2Dot14::from_bits(s).to_fixed().to_bits();
-        if fx != s as i32 * 4 {
-            acc.mismatch(ctx, "F2Dot14", "to_fixed", None, format!("bits={:#06x}", p), json!({"got": fx}));
-        }
-        if FWord::new(s).to_fixed().to_bits() as i64 != (s as i64) << 16 {
-            acc.mismatch(ctx, "FWord", "to_fixed", None, format!("bits={:#06x}", p), json!(null));
-        }
-        if p < 0x8000 && UfWord::new(p).to_fixed().to_bits() as i64 != (p as i64) << 16 {
-            acc.mismatch(ctx, "UfWord", "to_fixed", None, format!("bits={:#06x}", p), json!(null));
-        }
-        if Fixed::from_i32(s as i32).to_bits() as i64 != (s as i64) << 16 || Fixed::from(s as i32).to_bits() as i64 != (s as i64) << 16 {
-            acc.mismatch(ctx, "Fixed", "from_i32", None, format!("i={}", s), json!(null));
-        }
-        // 16.16 -> 2.14 on every value that is representable in 2.14 (+- the two low bits)
-        for low in 0..4i32 {
-            let x = (s as i32) * 4 + low;
-            let e = (x as i64 + 2).div_euclid(4);
-            if e >= i16::MIN as i64 && e <= i16::MAX as i64 {
-                let got = Fixed::from_bits(x).to_f2dot14().to_bits();
-                if got as i64 != e {
-                    acc.mismatch(ctx, "Fixed", "to_f2dot14", None, format!("bits={:#010x}", x as u32), json!({"got": got, "expected": e}));
-                }
-                acc.evals += 1;
-            }
-        }
-        // MajorMinor / Version16Dot16 with this pattern as major and a derived minor
-        let minor = (p as u32 * 7 % 10) as u16;
-        let v = Version16Dot16::new(p, minor);
-        let vb = [b[0], b[1], (minor << 4) as u8, 0];
-        scalar_rt::<Version16Dot16>(ctx, acc, "Version16Dot16", v, &vb);
-        if v.to_major_minor() != (p, minor) || v.to_be_bytes() != vb {
-            acc.mismatch(ctx, "Version16Dot16", "to_major_minor", None, format!("major={},minor={}", p, minor), json!(null));
-        }
-        let mm = MajorMinor::new(p, o);
-        let mb = [b[0], b[1], (o >> 8) as u8, o as u8];
-        scalar_rt::<MajorMinor>(ctx, acc, "MajorMinor", mm, &mb);
-        if MajorMinor::new(p, o).cmp(&MajorMinor::new(o, p)) != (p, o).cmp(&(o, p)) {
-            acc.mismatch(ctx, "MajorMinor", "ordering", None, format!("{},{}", p, o), json!(null));
-        }
+        pattern16(ctx, acc, &mut rng, p);
     }
     acc.count("exhaustive:16bit_patterns_x_13_types", if ctx.shard.0 == 0 { 65536 } else { 0 });
 
@@ -359,53 +531,7 @@ pub fn run(ctx: &mut Ctx, acc: &mut Acc) {
         if !ctx.mine((p >> 8) as usize) {
             continue;
         }
-        let b = be24(p);
-        let sv = ((p << 8) as i32) >> 8; // sign-extended
-        acc.evals += 3;
-        let ok = guard(|| {
-            let u = Uint24::from_be_bytes(b);
-            let i = Int24::from_be_bytes(b);
-            u.to_u32() == p
-                && u.to_be_bytes() == b
-                && Uint24::new(p) == u
-                && Uint24::checked_new(p) == Some(u)
-                && u32::from(u) == p
-                && usize::from(u) == p as usize
-                && Uint24::try_from(p as usize).ok() == Some(u)
-                && i.to_i32() == sv
-                && i.to_be_bytes() == b
-                && Int24::new(sv) == i
-                && Int24::checked_new(sv) == Some(i)
-                && i32::from(i) == sv
-                && <Uint24 as Scalar>::read(&b) == Some(u)
-                && <Int24 as Scalar>::read(&b) == Some(i)
-                && u.to_raw() == b
-                && i.to_raw() == b
-                && <Offset24 as Scalar>::read(&b).map(|o| o.to_u32()) == Some(p)
-                && Offset24::new(u).to_raw() == b
-                && Offset24::new(u).is_null() == (p == 0)
-                && BigEndian::<Int24>::from(i).get() == i
-                && BigEndian::<Uint24>::from(u).be_bytes() == b
-        });
-        match ok {
-            Ok(true) => {}
-            Ok(false) => acc.mismatch(ctx, "Uint24/Int24/Offset24", "be_roundtrip", None, format!("bytes={}", hex(&b)), json!(null)),
-            Err(pi) => acc.panic(ctx, &pi, "Uint24/Int24/Offset24", "be_roundtrip", None, format!("bytes={}", hex(&b)), json!(null)),
-        }
-        if p % 4099 == 0 {
-            // the complete battery (incl. wrong lengths, BigEndian::set) on a subset; ordering
-            scalar_rt::<Uint24>(ctx, acc, "Uint24", Uint24::new(p), &b);
-            scalar_rt::<Int24>(ctx, acc, "Int24", Int24::new(sv), &b);
-            scalar_rt::<Offset24>(ctx, acc, "Offset24", Offset24::new(Uint24::new(p)), &b);
-            if let Some(nl) = <Nullable<Offset24> as Scalar>::read(&b) {
-                scalar_rt::<Nullable<Offset24>>(ctx, acc, "Nullable<Offset24>", nl, &b);
-            }
-            let o = rng.u32() & 0xFF_FFFF;
-            let so = ((o << 8) as i32) >> 8;
-            if Uint24::new(p).cmp(&Uint24::new(o)) != p.cmp(&o) || Int24::new(sv).cmp(&Int24::new(so)) != sv.cmp(&so) {
-                acc.mismatch(ctx, "Uint24/Int24", "ordering", None, format!("{:#x},{:#x}", p, o), json!(null));
-            }
-        }
+        pattern24(ctx, acc, &mut rng, p, p % 4099 == 0);
         if acc.give_up() {
             return;
         }
@@ -422,33 +548,7 @@ pub fn run(ctx: &mut Ctx, acc: &mut Acc) {
             outs.push(rng.range(i32::MIN as i64, u32::MAX as i64));
         }
         for x in outs {
-            acc.evals += 1;
-            if x >= i32::MIN as i64 && x <= i32::MAX as i64 {
-                let xi = x as i32;
-                let exp = xi.clamp(-0x80_0000, 0x7F_FFFF);
-                let (g, c) = (Int24::new(xi).to_i32(), Int24::checked_new(xi).map(|v| v.to_i32()));
-                let in_range = exp == xi;
-                if g != exp || c != in_range.then_some(xi) {
-                    acc.mismatch(ctx, "Int24", "new/checked_new", None, format!("x={}", xi), json!({"new": g, "checked_new": c, "expected_saturated": exp}));
-                }
-                acc.count(if in_range { "int24:new_in_range" } else { "int24:new_saturating" }, 1);
-                if !in_range {
-                    acc.sample(ctx, "int24_saturation", || json!({"Int24::new": xi, "to_i32": g, "checked_new": c}));
-                }
-                acc.class(2, 0, (in_range as u64) << 1 | (xi < 0) as u64);
-            }
-            if x >= 0 {
-                let xu = x as u32;
-                let exp = xu.min(0xFF_FFFF);
-                let in_range = exp == xu;
-                let (g, c) = (Uint24::new(xu).to_u32(), Uint24::checked_new(xu).map(|v| v.to_u32()));
-                let t = Uint24::try_from(xu as usize).ok().map(|v| v.to_u32());
-                if g != exp || c != in_range.then_some(xu) || t != c {
-                    acc.mismatch(ctx, "Uint24", "new/checked_new/try_from", None, format!("x={}", xu), json!({"new": g, "checked_new": c, "try_from": t, "expected_saturated": exp}));
-                }
-                acc.count(if in_range { "uint24:new_in_range" } else { "uint24:new_saturating" }, 1);
-                acc.class(2, 1, in_range as u64);
-            }
+            saturate_at(ctx, acc, x);
         }
         if Int24::MAX.to_i32() != 0x7F_FFFF || Int24::MIN.to_i32() != -0x80_0000 || Uint24::MAX.to_u32() != 0xFF_FFFF || Uint24::MIN.to_u32() != 0 {
             acc.mismatch(ctx, "Int24/Uint24", "MIN/MAX", None, String::new(), json!(null));
@@ -472,45 +572,11 @@ pub fn run(ctx: &mut Ctx, acc: &mut Acc) {
     for _ in 0..ctx.tier.pick(20_000, 400_000) {
         vals.push(rng.u64() >> rng.below(64));
     }
-    for (i, v) in vals.iter().enumerate() {
+    for i in 0..vals.len() {
         if !ctx.mine(i) {
             continue;
         }
-        let w = *v as u32;
-        let b = be32(w);
-        scalar_rt::<u32>(ctx, acc, "u32", w, &b);
-        scalar_rt::<i32>(ctx, acc, "i32", w as i32, &b);
-        scalar_rt::<Fixed>(ctx, acc, "Fixed", Fixed::from_bits(w as i32), &b);
-        scalar_rt::<Offset32>(ctx, acc, "Offset32", Offset32::new(w), &b);
-        scalar_rt::<Tag>(ctx, acc, "Tag", Tag::from_be_bytes(b), &b);
-        if let Some(x) = <Version16Dot16 as Scalar>::read(&b) {
-            scalar_rt::<Version16Dot16>(ctx, acc, "Version16Dot16", x, &b);
-        }
-        if let Some(x) = <Nullable<Offset32> as Scalar>::read(&b) {
-            scalar_rt::<Nullable<Offset32>>(ctx, acc, "Nullable<Offset32>", x, &b);
-        }
-        scalar_rt::<MajorMinor>(ctx, acc, "MajorMinor", MajorMinor::new((w >> 16) as u16, w as u16), &b);
-        let tg = Tag::from_u32(w);
-        let o = (vals[(i * 31 + 7) % vals.len()]) as u32;
-        if tg.to_be_bytes() != b || tg.into_bytes() != b || tg != Tag::from_be_bytes(b) || Fixed::from_bits(w as i32).to_be_bytes() != b
-            || tg.cmp(&Tag::from_u32(o)) != w.cmp(&o)
-            || Fixed::from_bits(w as i32).cmp(&Fixed::from_bits(o as i32)) != (w as i32).cmp(&(o as i32))
-            || Offset32::new(w).cmp(&Offset32::new(o)) != w.cmp(&o)
-            || Offset32::new(w).to_u32() != w
-        {
-            acc.mismatch(ctx, "Tag/Fixed/Offset32", "bytes/ordering", None, format!("{:#010x},{:#010x}", w, o), json!(null));
-        }
-        let b8 = be64(*v);
-        scalar_rt::<i64>(ctx, acc, "i64", *v as i64, &b8);
-        scalar_rt::<LongDateTime>(ctx, acc, "LongDateTime", LongDateTime::new(*v as i64), &b8);
-        let o64 = vals[(i * 17 + 3) % vals.len()] as i64;
-        if LongDateTime::new(*v as i64).as_secs() != *v as i64
-            || LongDateTime::new(*v as i64).to_be_bytes() != b8
-            || LongDateTime::new(*v as i64).cmp(&LongDateTime::new(o64)) != (*v as i64).cmp(&o64)
-        {
-            acc.mismatch(ctx, "LongDateTime", "as_secs/bytes/ordering", None, format!("{:#x}", v), json!(null));
-        }
-        acc.class(3, 0, (crate::common::bitlen(*v as i64) as u64) << 1 | ((*v as i64) < 0) as u64);
+        pattern32_64(ctx, acc, &vals, i);
     }
     acc.count("scalar32_64:values", vals.len() as u64 / ctx.shard.1 as u64);
 }
